@@ -755,7 +755,7 @@ func rangeDominates(c *Ctx, r *RuleResult, fn *ssa.Function, name string) {
 func init() {
 	register(&propDef{
 		id:          "C07",
-		explanation: "Decides that the four hand-written copies of the size header N(n) (Graph6Encode, Sparse6Encode, Graph6Decode, Sparse6Decode) agree with the published format and hence with each other: HDR extracts, per encoder branch `n <= T`, the constant-index stores (marker bytes 126, sextets byte((n>>SH)&63)+63, direct byte n+63) and the allocated header length, and per decoder the three forms of n as sums of (s[c]-63)<<SH with the data offset that follows, and compares them with the format's thresholds 62 / 258047 / 68719476735, shifts 12,6,0 and 30..0, marker positions and the sparse6 ':' shift; SEXTET checks the bit-packing constants (6 bits per byte, top bit 5, offset 63, valid range [63,126] established before any byte is decoded, k = 64 - LeadingZeros64(n-1) on both sparse6 sides). The long-header branches are never executed by the tests. Does not decide round-trip equality.",
+		explanation: "Decides that the four hand-written copies of the size header N(n) (Graph6Encode, Sparse6Encode, Graph6Decode, Sparse6Decode) agree with the published format and hence with each other: HDR extracts, per encoder branch `n <= T`, the constant-index stores (marker bytes 126, sextets byte((n>>SH)&63)+63, direct byte n+63) and the allocated header length, and per decoder the three forms of n as sums of (s[c]-63)<<SH with the data offset that follows, and compares them with the format's thresholds 62 / 258047 / 68719476735, shifts 12,6,0 and 30..0, marker positions and the sparse6 ':' shift; EDGEBYTE checks that no codec uses the numeric value of an adjacency byte of the graph it is given (any non-zero byte is an edge, so packing the bytes directly would emit bytes outside the format for such graphs); SEXTET checks the bit-packing constants (6 bits per byte, top bit 5, offset 63, valid range [63,126] established before any byte is decoded, k = 64 - LeadingZeros64(n-1) on both sparse6 sides). The long-header branches are never executed by the tests. Does not decide round-trip equality.",
 		notDecided:  []string{"decode(encode(g)) == g for all graphs", "sparse6 padding special case, end-of-stream handling (repaired under C08, not detected here)", "Multicode", "Pruefer bijection"},
 		assumptions: []string{"format definition: https://users.cecs.anu.edu.au/~bdm/data/formats.txt (constants transcribed in checker/p_c07.go)"},
 		run: func(c *Ctx, tier string) []*RuleResult {
@@ -764,7 +764,7 @@ func init() {
 			ruleHdrEncoder(c, h, "graph.Sparse6Encode", 1, "58")
 			ruleHdrDecoder(c, h, "graph.Graph6Decode")
 			ruleHdrDecoder(c, h, "graph.Sparse6Decode")
-			return []*RuleResult{h, ruleSextet(c)}
+			return []*RuleResult{h, ruleSextet(c), ruleEdgeByte(c, "graph")}
 		},
 		controls: func(ctl *Ctx) []*RuleResult {
 			h := &RuleResult{Rule: "HDR"}
